@@ -176,7 +176,7 @@ func srcHash(c Case) uint64 { return ev.Hash(c.Src) }
 // monitorCheck runs the histories under the monitors and reports the first
 // violation of the given property.
 func monitorCheck(prop string, c Case, p *winterp.Program) (msg string, nontrivial bool, classes []string) {
-	_, viols, stats, err := wdrv.Interpret(p, c.Histories, true)
+	_, viols, stats, err := wdrv.Interpret(p, c.Histories, true, prop)
 	if err != nil {
 		return "", false, []string{"interpreter-unsupported:" + firstWords(err.Error(), 4)}
 	}
